@@ -682,3 +682,79 @@ TAI = Unit('C12', TP + 'temparray:TemperatureArray.__init__', _tai_params, pre=l
            doc='with pressure points: the interpolator is scipy interp1d of the stored temperatures over log10 of the stored pressures, no '
                'bounds error, CLAMPED to the end temperatures outside the tabulated range (so the profile cannot leave the range of the '
                'control temperatures); interp1d itself abstract (recorded with the content of its arguments)')
+
+
+# ------------------------------------------------------------------ TemperatureArray WITH pressure points: constructed, initialised, evaluated
+def _tpp_params(c):
+    n = c.int('n')
+    if c.mode == 'conc':
+        return dict(self=dict(__obj__='TemperatureArray', nlayers=n, pressure_profile=c.array('P', (n,))))
+    return dict(self=ObjSpec('TemperatureArray', nlayers=n, pressure_profile=c.array('P', (n,))))
+
+
+def _tpp_setup(ex, st, c):
+    from pyvc import source as _src
+    from pyvc.unit import materialize
+    ci, fn = _src.find_method('TemperatureArray', '__init__')
+    K = c.int('K')
+    T, PP = materialize(c, st, c.array('T', (K,))), materialize(c, st, c.array('PP', (K,)))
+    c._tpp = (T, PP)
+    st.assume(z3.Int('K') >= 2, z3.Int('n') >= 1)
+    i, j = z3.Ints('i?pp j?pp')
+    PPa = st.get(PP)
+    st.assume(z3.ForAll([i], z3.Implies(z3.And(0 <= i, i < z3.Int('K')), PPa.elem((i,)) > 0)))
+    st.assume(z3.ForAll([i, j], z3.Implies(z3.And(0 <= i, i < j, j < z3.Int('K')), PPa.elem((i,)) != PPa.elem((j,)))))
+    ex.inline_call(ci, fn, [st.env['self']], dict(tp_array=T, p_points=PP, reverse=c.fixed['reverse']), st, fn)
+    st.trace[:] = [e for e in st.trace if e[0] != 'ev']
+
+
+def _tpp_post(c, v0, v1, r):
+    if c.mode == 'conc':
+        T, n = c.values['__T__'], c.values['n']
+        lo, hi = min(T), max(T)
+        return {'one_value_per_layer': len(r) == n,
+                'within_the_control_temperatures': all(lo - 1e-9 * abs(lo) <= r[i] <= hi + 1e-9 * abs(hi) for i in range(len(r)))}
+    n = v0.self.nlayers
+    from pyvc.core import View
+    heap = c.raw['state'].heap
+    A = heap[c._tpp[0].id]
+    K = A.shape[0]
+    d = {'one_value_per_layer': c.Len(r) == n}
+    lo, hi = z3.Reals('lo? hi?')
+    d['within_the_control_temperatures'] = z3.ForAll([lo, hi], z3.Implies(c.Forall(0, K, lambda j: z3.And(lo <= A.elem((j,)), A.elem((j,)) <= hi)),
+                                                                         c.Forall(0, n, lambda i: z3.And(lo <= r[i], r[i] <= hi))))
+    return d
+
+
+def _tpp_native(c, p):
+    import numpy as np
+    from taurex.data.profiles.temperature.temparray import TemperatureArray
+    v = c.values
+    o = TemperatureArray(tp_array=list(v['T']), p_points=list(v['PP']), reverse=v['reverse'])
+    o.initialize_profile(None, v['n'], np.array(v['P'], dtype=float))
+    c.values['__T__'] = list(v['T'])
+    return np.asarray(o.profile, dtype=float), p
+
+
+def _tpp_gen(rng):
+    K, n = rng.randint(2, 6), rng.randint(1, 12)
+    pp = [10 ** rng.uniform(-3, 7) for _ in range(K)]
+    if rng.random() < 0.6:
+        pp = sorted(pp, reverse=rng.random() < 0.7)
+    return dict(K=K, n=n, reverse=rng.random() < 0.3, T=[rng.uniform(100, 3000) for _ in range(K)], PP=pp,
+                P=sorted((10 ** rng.uniform(-4, 8) for _ in range(n)), reverse=True))
+
+
+TPP = Unit('C12', TP + 'temparray:TemperatureArray.profile', _tpp_params, post=_tpp_post, setup=_tpp_setup, native=_tpp_native, gen=_tpp_gen,
+           cases=[{'reverse': False}, {'reverse': True}], bounds=[], variant='constructed:with_pressure_points', safety=('index',),
+           abstract={'call:compile_fitparams': lambda ex, st, args, kwargs, node: None, 'call:add_fittable_param': lambda ex, st, args, kwargs, node: None,
+                     'call:add_derived_param': lambda ex, st, args, kwargs, node: None},
+           pre=lambda c, v: {'layer_pressures_positive': c.Forall(0, v.self.nlayers, lambda i: v.self.pressure_profile[i] > 0),
+                             # (symbolic runs: assumed by the scenario's setup, where the control points are created)
+                             'control_pressures_positive_and_distinct': (all(x > 0 for x in c.values['PP']) and len(set(c.values['PP'])) == len(c.values['PP']))
+                             if c.mode == 'conc' else True},
+           short='TemperatureArray.profile@pressure_points',
+           doc='array profile WITH pressure points, as a scenario: the real constructor executed symbolically for any K >= 2 control temperatures '
+               'at pairwise distinct positive pressures in ANY order, reversed or not, then the real profile on any positive layer pressures: one '
+               'value per layer, inside the range of the control temperatures (scipy interp1d by its order-free assumed consequence: a fill '
+               'value or a value between two of the given temperatures)')
